@@ -112,7 +112,7 @@ func run(c *simrun.Ctx) *simrun.Violation {
 	proto0 := corpus[t.Draw("type", len(corpus))]
 	mt := proto0.ProtoReflect().Type()
 	md := mt.Descriptor()
-	cfg := simval.GenCfg{MaxDepth: 1 + t.Draw("maxdepth", 3), MaxFields: 1 + t.Draw("maxfields", 6), MaxMapEntries: 2 + t.Draw("maxentries", 11), MaxListLen: 1 + t.Draw("maxlist", 4), Unknown: t.Chance("unknowns", 1, 4)}
+	cfg := simval.GenCfg{MaxDepth: 1 + t.Draw("maxdepth", 3), MaxFields: 1 + t.Draw("maxfields", 6), MaxMapEntries: 2 + t.Draw("maxentries", 11), MaxListLen: 1 + t.Draw("maxlist", 4), Unknown: t.Chance("unknowns", 1, 4), AnyTargets: anyTargets()}
 	if t.Chance("bigmaps", 1, 16) {
 		// maps large enough to cross any small-map threshold (8, 16, 32, 64 entries)
 		cfg.MaxMapEntries = 17 + t.Draw("bigmapn", 64)
@@ -175,6 +175,7 @@ func run(c *simrun.Ctx) *simrun.Violation {
 		var m proto.Message
 		var err error
 		var root proto.Message
+		var decodeInputs [][]byte // buffers a decode-based history read from
 		if t.Chance("interleave-marshal", 1, 5) && (kind == "reflect-permuted" || kind == "extras-delete") {
 			// marshal calls interleaved into the construction: the partial
 			// message is encoded (result ignored) while it is being built
@@ -222,6 +223,7 @@ func run(c *simrun.Ctx) *simrun.Violation {
 			enc := (&simval.EncodeOpts{T: t, Shuffle: true, Redundant: t.Chance("redundant", 1, 3), DupMapKeys: t.Chance("dupkeys", 1, 3)}).Encode(av)
 			mm := mt.New().Interface()
 			err = safeUnmarshal(enc, mm)
+			decodeInputs = append(decodeInputs, enc)
 			m = mm
 		case "unmarshal-merge-split":
 			// the stream cut in two at a record boundary: decode the first part,
@@ -241,6 +243,7 @@ func run(c *simrun.Ctx) *simrun.Violation {
 			if err == nil {
 				err = safeMergeUnmarshal(b, mm)
 			}
+			decodeInputs = append(decodeInputs, a, b)
 			m = mm
 		case "clone":
 			if base == nil {
@@ -275,6 +278,14 @@ func run(c *simrun.Ctx) *simrun.Violation {
 		}
 		if base == nil {
 			base = m
+		}
+		// the caller re-uses the buffers it decoded from: the message is still
+		// the same message and must keep encoding to the same bytes
+		for _, buf := range decodeInputs {
+			for i := range buf {
+				buf[i] ^= 0xff
+			}
+			st.Add("fault_decode_input_overwritten_before_encoding", 1)
 		}
 		reps := 2 + t.Draw("reps", 7)
 		for r := 0; r < reps; r++ {
@@ -504,6 +515,17 @@ func mutateRevert(t *simhook.Tape, m proto.Message) (done bool) {
 	mp.Set(k, mp.NewValue())
 	mp.Clear(k)
 	return true
+}
+
+var anyTargetCache []protoreflect.MessageDescriptor
+
+func anyTargets() []protoreflect.MessageDescriptor {
+	if anyTargetCache == nil {
+		for _, m := range corpus {
+			anyTargetCache = append(anyTargetCache, m.ProtoReflect().Descriptor())
+		}
+	}
+	return anyTargetCache
 }
 
 func firstDiff(a, b []byte) int {
